@@ -547,7 +547,9 @@ PROPS = {
         runs=[dict(comp="preempt", quick=2000, thorough=24000)],
         classify=cls_preempt("C07"),
         nontrivial=lambda line: '"op":"reset"' not in line,
-        rule=PREEMPT_RULE,
+        rule=PREEMPT_RULE + ". Every TryPreemption case that passes the preconditions is first run undisturbed without being recorded; then (always when it marked victims - twice when it marked several - otherwise with 30%; 15-20% of all try lines) "
+             "it is repeated with 1..2 allocations released (SetReleased(true)) AFTER the victim snapshots were taken (hook VerifInitQueueSnapshots) and BEFORE TryPreemption marks its final victims - keys drawn from the final victims of the undisturbed run in any position, "
+             "now and then a potential victim that was not chosen or any allocation - and the flags of every allocation (preempted, released), the ask's allocation log and triggered flag and every queue's preempting resource after the attempt are compared with the modelled marking loop (rollback: abandoned, nothing left marked, 'victims released' logged)",
         trusted=PREEMPT_TRUSTED,
         assumptions=["queue tree well-formed (parents before children); allocation keys unique; victim resources non-negative"],
         level_text="Lean 4 proofs for all worlds: every potential victim found by the model of findEligiblePreemptionVictims is a bound allocation, not released, not preempted, without required node, in a different leaf inside the asker's fence whose policy is not disabled, shares a type with the ask and does not outrank the ask along the tree path unless a priority fence applies; CheckPreconditions, required-node and quota filters; TryPreemption commits a duplicate-free sub-list of the potential victims. "
@@ -704,19 +706,25 @@ PROPS = {
     ),
     "C16": dict(
         module="YkProps.C16",
-        leancheck=["YkModel.Reload", "YkProofs.Reload", "YkProofs.ReloadMark", "YkProofs.ReloadParts", "YkProps.C16"],
+        leancheck=["YkModel.Reload", "YkModel.ReloadPlace", "YkProofs.Reload", "YkProofs.ReloadMark", "YkProofs.ReloadParts", "YkProofs.ReloadPlace", "YkProps.C16"],
         runs=[dict(comp="reload", quick=6400, thorough=160000)],
         classify=cls_c16,
         nontrivial=lambda line: '"op":"reset"' not in line,
-        rule="reload: histories (n/20 of them) on a real ClusterContext driven synchronously through hooks: a generated configuration (root -> a, b{b1,b2}, c, d, e{e1{e11}} with sparse max / guaranteed / maxapplications, "
-             "properties from the nine interpreted keys with valid and invalid values, child templates, user/group limits, node sort policy, preemption flag, sometimes a second partition) is loaded, then 25..70 operations: "
+        rule="reload: histories (n/20 of them) on a real ClusterContext driven synchronously through hooks: a generated configuration (root -> a, b{b1,b2}, c, d, default (55%: the queue the placement manager falls back to), e{e1{e11}} with sparse max / guaranteed / maxapplications, "
+             "properties from the nine interpreted keys with valid and invalid values, child templates, user/group limits, node sort policy (type and resource weights), preemption and quota preemption flags, sometimes a second partition) is loaded, then 25..70 operations: "
              "nodes, applications in configured and dynamic queues (also submitted to draining queues, parents, missing queues), asks, scheduling cycles (reservation delay 0), releases, removals, the partition manager's queue cleaner (hook), "
+             "a drain scenario (4% of the operations): a configured leaf below root that holds an application (one is submitted first if needed; root.default preferred) is dropped by an update whose rule list is one of seven in which the deciding rule comes last "
+             "(none = implicit provided; provided; user+provided; provided+fixed(<the dropped leaf>, create); provided(create); tag(namespace)+provided; tag(namespace)), then 2..4 submissions that end up at the draining leaf: naming it qualified / unqualified, through the tag, "
+             "naming a missing queue / no queue / a parent so that NO rule places them and the fall-back to root.default inside the iteration of the last (recovery) rule decides; every app-add line records the answer (accepted into which queue / rejected with which text) and every dump the state of every queue and the rule list in force (read back from the rule DAOs), "
              "a liveness probe after 40% of the updates (a node with room for everything is registered, every live application gets one small ask, scheduling cycles run to quiescence, the line records which probe asks were allocated and, for the others, whether run gates / back-off / queue headroom / user headroom / node room stand in the way; asks and node are removed again), "
              "and configuration updates (25%) through the RM event path (checksum short-cut) or UpdateRMSchedulerConfig: 1..3 mutations of the configuration in force (add leaf / parent, drop a subtree, re-add a dropped subtree, leaf->parent, parent->leaf, "
              "resources, maxapplications, properties, child template, limits, partition settings and placement rules, add a partition), the identical text, a comment-only change, configurations the validator refuses (6 kinds), "
-             "configurations the validator accepts and the loader refuses (template quantity, ACL text, top queue name, unknown rule) in the first or in the second partition. Every line carries the complete dump of the core plus per partition the "
-             "queue tree with all configuration-derived fields; update lines also the annotated configuration and the fresh load the real code builds for it (its dry-run partition). The driver steps the model from the implementation's previous state, "
-             "compares answer and state, compares the model's fresh load with the real one, and evaluates the property clauses on the dumps. non-trivial = not a reset line; distinct = distinct protocol lines",
+             "configurations the validator accepts and the loader refuses (template quantity, ACL text, top queue name, unknown rule) in the first or in the second partition, and (9% of the updates) updates rejected LATE: a rule list that passes the validator (rule names are only checked to be identifiers; "
+             "the dry run swallows the placement manager's error) and is refused by AppPlacementManager.UpdateRules (providedd, foo after provided, unknown parent rule fixedd, tag / fixed without value, Provided_1, … — each candidate is kept only if the real validator accepts and the real UpdateRules refuses it) "
+             "while the SAME configuration always changes the node sorting policy (type flip and/or new resource weights) and at random the preemption / quota preemption flags, the limits of root and 0..2 queue mutations. Every line carries the complete dump of the core (user/group trackers with their limits included) plus per partition the "
+             "queue tree with all configuration-derived fields and the partition settings as fields (node sorting policy type, resource weights, preemption flags, placement rule names and rule DAOs); update lines also the annotated configuration and the fresh load the real code builds for it (its dry-run partition). The driver steps the model from the implementation's previous state, "
+             "compares answer and state (settings field by field: a rejected update must leave the node sorting policy, flags and rules as they were — diff reload.state / clause C16.A0), compares the model's fresh load with the real one, replays every submission on the placement model of C17 (YkModel/Place.lean: whole rule chain incl. recovery rule and root.default fall-back) "
+             "over the dumped tree with the rule list in force (ACLs as every generated configuration has them: root open with submitacl *, none elsewhere; rules with filters are not generated and would be skipped; diff reload.place; clause C16.D2 = the recorded answer put the application into a queue that was Draining, next to C16.D1 = a draining queue's application list grew), and evaluates the property clauses on the dumps. non-trivial = not a reset line; distinct = distinct protocol lines",
         trusted=["resource quantities, ACL texts and template texts enter the model as the real parsers read them (flags: which step of applyConf refuses the entry); the validator's verdict is an input (C15 owns the validator)",
                  "ACLs are not part of the modelled queue state (C17 owns them); user/group limits are an opaque text handed to the user manager (C05 owns the trackers): only the usage booked for users and groups is compared across a reload",
                  "durations in property values: integer groups <digits><unit> only (no fractions are generated)",
